@@ -305,6 +305,7 @@ const AIG_NUMBERS: &[u128] = &[0, 1, 2, 3, 4, 5, 6, 7, 8, 10, 11, 12, 13, 72, 73
 pub fn suite(which: &str, prop: &str, _tier: &str, _seed: u64) -> Report {
     let mut rep = Report::new();
     let all = prop == "all";
+    start_watchdog(30);
     let aag = FORMATS.iter().find(|f| f.name == "aag").unwrap();
     let aig = FORMATS.iter().find(|f| f.name == "aig").unwrap();
     let scheds = [ONE_SHOT, Sched { chunk: 1, mode: Mode::Step(1), fail_at: None, interrupt: 0 }, Sched { chunk: 3, mode: Mode::Step(7), fail_at: None, interrupt: 0 }];
